@@ -248,6 +248,39 @@ func jsonrtF11Repair(o, g protoreflect.Message) int {
 	return n
 }
 
+var jsonrtCoreCache = map[protoreflect.FullName]bool{}
+
+// jsonrtCore: no message type reachable from md has a special JSON mapping (Empty excepted).
+func jsonrtCore(md protoreflect.MessageDescriptor) bool {
+	if v, ok := jsonrtCoreCache[md.FullName()]; ok {
+		return v
+	}
+	_, list := rtCollectTypes(md, nil)
+	ok := true
+	for _, d := range list {
+		if c := rtWktCode(d); c != 0 && c != 9 {
+			ok = false
+		}
+	}
+	jsonrtCoreCache[md.FullName()] = ok
+	return ok
+}
+
+// jsonrtF11Unset: some message reachable from m has an unset F11-shaped field.
+func jsonrtF11Unset(m protoreflect.Message) bool {
+	found := false
+	rtWalk(m, func(x protoreflect.Message) bool {
+		fds := x.Descriptor().Fields()
+		for i := 0; i < fds.Len(); i++ {
+			if fd := fds.Get(i); jsonrtF11Shaped(fd) && !x.Has(fd) {
+				found = true
+			}
+		}
+		return !found
+	})
+	return found
+}
+
 // ---------------------------------------------------------------- one message
 
 type jsonrtCfg struct {
@@ -309,6 +342,19 @@ func jsonrtOne(c *Ctx, t *rtTarget, m protoreflect.Message, cfg jsonrtCfg) {
 		rtAnyTypes(m, map[protoreflect.FullName]bool{}, &extra)
 		id = rtSchemaOf(c, "jsonrt", t.md, extra)
 		val = msgDump(m)
+		// the validity predicate of the proved theorem (core: tables without special-mapping types) and
+		// its F11 exclusion against the harness's independent classification, for EmitUnpopulated off / on
+		if len(extra) == 0 && jsonrtCore(t.md) {
+			cls := "v"
+			if reason != "" || lossy != "" {
+				cls = "nv"
+			}
+			c.Case("jsonrt", "cls", append([]string{id, "0"}, val...), []string{cls})
+			if cls == "v" && jsonrtF11Unset(m) {
+				cls = "f11"
+			}
+			c.Case("jsonrt", "cls", append([]string{id, "1"}, val...), []string{cls})
+		}
 	}
 	for _, bits := range jsonrtOptionSets(c) {
 		mo := jsonrtOpts(bits)
